@@ -503,6 +503,9 @@ func (p c09) Run(w *mon.Worker, idx int) mon.Result {
 	if idx%40 == 3 {
 		return c09ArgCase(w, r)
 	}
+	if idx%40 == 23 {
+		return c09InterpCase(w, r)
+	}
 	cs := gen.C09Generate(r, idx-1)
 	e := cs.Expr
 	st := e.Stats()
